@@ -302,8 +302,14 @@ def proof_side(pid, tier, fn_status=None):
                         res["problems"].append("forbidden construct in %s: %s" % (f, ln.strip()[:80]))
     os.makedirs(os.path.join(jl.BUILD, "tmp"), exist_ok=True)
     af = os.path.join(jl.BUILD, "tmp", "audit_%s.lean" % pid)
-    open(af, "w").write(AUDIT_TEMPLATE % dict(pid=pid, imports="\n".join("import " + m for m in modules_of(pid) + ["JL.Tie." + t for t in tie_built]),
-                                             audits="\n".join(["#audit_ns JL.Props." + n for n in PROP_NAMESPACES.get(pid, [pid])] + (["#audit_ns JL.Tie"] if tie_built else []))))
+    extra_mods = []; extra_ns = []
+    if "knot" in tie_built and pid in ("C01", "C02", "C05", "C14", "C17"):
+        # the headline theorems restated about the translated `apply` (corollaries of JL.Tie.apply)
+        okx, outx = jl.lake_build(["JL.Props.Translated"])
+        if okx: extra_mods = ["JL.Props.Translated"]; extra_ns = ["#audit_ns JL.Props.Translated"]
+        else: res["problems"].append("JL.Props.Translated (property theorems restated about the translated apply) no longer builds: " + outx[-400:])
+    open(af, "w").write(AUDIT_TEMPLATE % dict(pid=pid, imports="\n".join("import " + m for m in modules_of(pid) + ["JL.Tie." + t for t in tie_built] + extra_mods),
+                                             audits="\n".join(["#audit_ns JL.Props." + n for n in PROP_NAMESPACES.get(pid, [pid])] + (["#audit_ns JL.Tie"] if tie_built else []) + extra_ns)))
     rc, out = jl.sh(["lake", "env", "lean", af], cwd=jl.LEAN, timeout=1800)
     for m in re.finditer(r"THEOREM (\S+) AXIOMS \[(.*?)\]", out):
         name = m.group(1)
